@@ -84,6 +84,8 @@ def check(case):
             cg, fx, fy = trace(prog, rec_in)
     except Exception as ex:
         return 'record-exception: recording raised %s although the direct run succeeds' % (type(ex).__name__ + ':' + str(ex)[:80])
+    if not isinstance(fy, algopy.Function):
+        return 'record-untraced: the program run on traced operands returned a %s, not a traced node (an operation escaped the recording)' % type(fy).__name__
     # (a) values while recording
     if not close(val(fy.x), val(direct), 1e-12):
         return 'record-value: traced value differs from the direct evaluation while recording'
@@ -150,6 +152,8 @@ def expected_ops(prog):
     nv = len(prog['inputs'])
     for st in prog['steps']:
         op = st['op']
+        if op == 'ew' and st['fn'] in ('csub', 'cdiv', 'cpow'):
+            return None                                   # compound steps: several nodes, not modelled
         if op == 'ew':
             name = {'pow2': 'pow', 'pow3': 'pow', 'powm2': 'pow', 'pow1.5': 'pow', 'polygammaA': 'polygamma'}.get(st['fn'], st['fn'])
             args = [{'n': var2node[st['a']]}] + ([{'c': 0}] if name == 'pow' else [])
